@@ -1,6 +1,7 @@
 package main
 
 import (
+	"go/constant"
 	"go/token"
 	"go/types"
 
@@ -224,4 +225,12 @@ func reachableWithout(from, to, avoid *ssa.BasicBlock) bool {
 		work = append(work, b.Succs...)
 	}
 	return false
+}
+
+func constantInt64(k *types.Const) (int64, bool) {
+	v := constant.ToInt(k.Val())
+	if v.Kind() != constant.Int {
+		return 0, false
+	}
+	return constant.Int64Val(v)
 }
